@@ -89,10 +89,31 @@ type Spec struct {
 	Ret        string            // "errlast" (Option tuple), "tuple", "state" (return value followed by StateVars)
 	StateVars  []string          // Lean variable names appended to every return in "state" mode
 	Calls      map[string]string // Go function source (e.g. "min") -> Lean function applied to the translated arguments
+	// check-sequence extensions (handler bodies after the backend call)
+	InitCond  map[string]string // "<if init source> ; <cond source>" -> Lean Bool term standing for the whole test
+	ErrCalls  map[string]string // call-name prefix -> Lean Bool input "this call returned an error"; the `if err != nil` after it tests that input
+	Effects   map[string]string // call-name prefix of an expression statement -> "leanVar := term" binding it performs
+	RangeCond map[string]string // source of a ranged-over expression -> Lean Bool input "some iteration takes the loop's single `if ... { return }`"
+	Status    map[string]int    // "status"/"statusstate" return modes: Go expression source (http.StatusX) -> number
+	StatusIdx int               // index of the status among the results ("status", "statusstate", "statuserr")
 }
 
 type tr struct {
-	sp Spec
+	sp         Spec
+	pendingErr string // Lean Bool for the `err` assigned by the latest ErrCalls call
+}
+
+func prefixLookup(m map[string]string, name string) (string, bool) {
+	if name == "" {
+		return "", false
+	}
+	best, val := "", ""
+	for p, v := range m {
+		if strings.HasPrefix(name, p) && len(p) > len(best) {
+			best, val = p, v
+		}
+	}
+	return val, best != ""
 }
 
 func callName(e ast.Expr) string {
@@ -131,6 +152,9 @@ func (t *tr) expr(e ast.Expr) string {
 	}
 	if v, ok := t.sp.Vars[s]; ok {
 		return v
+	}
+	if n, ok := t.sp.Status[s]; ok {
+		return fmt.Sprintf("(%d : Int)", n)
 	}
 	switch x := e.(type) {
 	case *ast.Ident:
@@ -379,6 +403,67 @@ func (t *tr) ret(r *ast.ReturnStmt) string {
 		}
 		failf(r, "errbool: return with %d results", len(r.Results))
 		return ""
+	case "stateonly":
+		// a function without results whose observable behaviour is recorded in StateVars
+		if len(r.Results) != 0 {
+			failf(r, "stateonly: return with results")
+		}
+		if len(t.sp.StateVars) == 1 {
+			return t.sp.StateVars[0]
+		}
+		return "(" + strings.Join(t.sp.StateVars, ", ") + ")"
+	case "errkind":
+		// only the error result matters: nil, the `err` of the latest failing call passed on unchanged, or a fresh error
+		last := r.Results[len(r.Results)-1]
+		k := ""
+		if id, ok := last.(*ast.Ident); ok && id.Name == "nil" {
+			k = "ErrKind.ok"
+		} else if ok && id.Name == "err" {
+			k = "ErrKind.passthrough"
+		} else if n := callName(last); n == "fmt.Errorf" || n == "errors.New" {
+			k = "ErrKind.fresh"
+		} else {
+			failf(r, "errkind: unrecognised error result %s", src(last))
+		}
+		if len(t.sp.StateVars) == 0 {
+			return k
+		}
+		return "(" + strings.Join(append([]string{k}, t.sp.StateVars...), ", ") + ")"
+	case "statuserr":
+		// (…, status, error): `none` when the error is nil, else the status
+		last := r.Results[len(r.Results)-1]
+		if id, ok := last.(*ast.Ident); ok && id.Name == "nil" {
+			return "none"
+		}
+		k := src(r.Results[t.sp.StatusIdx])
+		if n, ok := t.sp.Status[k]; ok {
+			return fmt.Sprintf("some (%d : Nat)", n)
+		}
+		if rp, ok := t.sp.Repl[k]; ok {
+			return "some " + rp
+		}
+		failf(r, "statuserr: unknown status expression %s", k)
+		return ""
+	case "status", "statusstate":
+		// (int, error) handler results: the HTTP status, followed by StateVars in "statusstate" mode
+		st := ""
+		k := src(r.Results[t.sp.StatusIdx])
+		if n, ok := t.sp.Status[k]; ok {
+			st = fmt.Sprintf("(%d : Nat)", n)
+		} else if rp, ok := t.sp.Repl[k]; ok {
+			st = rp
+		} else {
+			failf(r, "status return: unknown status expression %s", k)
+		}
+		if t.sp.Ret == "status" {
+			return st
+		}
+		// (status, an error is returned, state…)
+		isErr := "true"
+		if id, ok := r.Results[len(r.Results)-1].(*ast.Ident); ok && id.Name == "nil" {
+			isErr = "false"
+		}
+		return "(" + strings.Join(append([]string{st, isErr}, t.sp.StateVars...), ", ") + ")"
 	case "state":
 		var parts []string
 		for _, e := range r.Results {
@@ -418,10 +503,51 @@ func (t *tr) block(b []ast.Stmt, tail string, ind string) string {
 	s, rest := b[0], b[1:]
 	switch x := s.(type) {
 	case *ast.ExprStmt:
+		if eff, ok := prefixLookup(t.sp.Effects, callName(x.X)); ok {
+			call := x.X.(*ast.CallExpr)
+			for i, a := range call.Args {
+				ph := fmt.Sprintf("$%d", i)
+				if strings.Contains(eff, ph) {
+					eff = strings.ReplaceAll(eff, ph, t.expr(a))
+				}
+			}
+			return "let " + eff + "\n" + ind + t.block(rest, tail, ind)
+		}
 		if t.ignoredCall(x.X) {
 			return t.block(rest, tail, ind)
 		}
 		failf(s, "unsupported expression statement %s", src(s))
+	case *ast.RangeStmt:
+		if !hasReturn(x.Body.List) {
+			vs0 := map[string]bool{}
+			t.assigned(x.Body.List, vs0)
+			if len(vs0) == 0 {
+				return t.block(rest, tail, ind)
+			}
+		}
+		c, ok := t.sp.RangeCond[src(x.X)]
+		if !ok {
+			failf(s, "unsupported range loop over %s", src(x.X))
+		}
+		if len(x.Body.List) != 1 {
+			failf(s, "range loop over %s: body is not a single if-return", src(x.X))
+		}
+		is, ok := x.Body.List[0].(*ast.IfStmt)
+		if !ok || is.Else != nil || len(is.Body.List) != 1 {
+			failf(s, "range loop over %s: body is not a single if-return", src(x.X))
+		}
+		r, ok := is.Body.List[0].(*ast.ReturnStmt)
+		if !ok {
+			failf(s, "range loop over %s: body is not a single if-return", src(x.X))
+		}
+		key := src(is.Cond)
+		if is.Init != nil {
+			key = src(is.Init) + " ; " + key
+		}
+		if want, ok := t.sp.RangeCond["cond:"+src(x.X)]; !ok || want != key {
+			failf(s, "range loop over %s: loop test is `%s`, expected `%s`", src(x.X), key, want)
+		}
+		return "if " + c + " then\n" + ind + "  " + t.ret(r) + "\n" + ind + "else\n" + ind + t.block(rest, tail, ind)
 	case *ast.DeferStmt:
 		if t.ignoredCall(x.Call) {
 			return t.block(rest, tail, ind)
@@ -438,6 +564,15 @@ func (t *tr) block(b []ast.Stmt, tail string, ind string) string {
 		for _, sp := range gd.Specs {
 			vs := sp.(*ast.ValueSpec)
 			for i, n := range vs.Names {
+				ignored := false
+				for _, ig := range t.sp.IgnoreLHS {
+					if n.Name == ig {
+						ignored = true
+					}
+				}
+				if ignored {
+					continue
+				}
 				val := "(0 : Int)"
 				if i < len(vs.Values) {
 					val = t.expr(vs.Values[i])
@@ -456,6 +591,20 @@ func (t *tr) block(b []ast.Stmt, tail string, ind string) string {
 		}
 		return "let " + v + " := (" + t.ops() + op + t.expr(x.X) + " (1 : Int))\n" + ind + t.block(rest, tail, ind)
 	case *ast.AssignStmt:
+		if len(x.Rhs) == 1 {
+			if name, ok := prefixLookup(t.sp.ErrCalls, callName(x.Rhs[0])); ok {
+				if src(x.Lhs[len(x.Lhs)-1]) != "err" {
+					failf(s, "ErrCalls call %s does not assign err last", src(s))
+				}
+				pre := ""
+				if i := strings.Index(name, "|"); i >= 0 {
+					pre = "let " + name[i+1:] + "\n" + ind
+					name = name[:i]
+				}
+				t.pendingErr = name
+				return pre + t.block(rest, tail, ind)
+			}
+		}
 		if len(x.Rhs) == 1 && t.isInputCall(x.Rhs[0]) {
 			// the variable is an input of the kernel; drop a following `if err != nil { return ... }`
 			if len(rest) > 0 {
@@ -465,11 +614,19 @@ func (t *tr) block(b []ast.Stmt, tail string, ind string) string {
 			}
 			return t.block(rest, tail, ind)
 		}
-		if len(x.Lhs) == 1 {
-			for _, ig := range t.sp.IgnoreLHS {
-				if src(x.Lhs[0]) == ig {
-					return t.block(rest, tail, ind)
+		if len(x.Lhs) >= 1 {
+			all := true
+			for _, l := range x.Lhs {
+				hit := false
+				for _, ig := range t.sp.IgnoreLHS {
+					if src(l) == ig {
+						hit = true
+					}
 				}
+				all = all && hit
+			}
+			if all {
+				return t.block(rest, tail, ind)
 			}
 		}
 		if len(x.Lhs) != len(x.Rhs) {
@@ -491,11 +648,35 @@ func (t *tr) block(b []ast.Stmt, tail string, ind string) string {
 		}
 		return out + t.block(rest, tail, ind)
 	case *ast.IfStmt:
-		if x.Init != nil {
-			failf(s, "if with init statement unsupported")
-		}
-		c := t.expr(x.Cond)
 		els := elseList(x.Else)
+		if !hasReturn(x.Body.List) && !hasReturn(els) && x.Init == nil {
+			vs0 := map[string]bool{}
+			t.assigned(x.Body.List, vs0)
+			t.assigned(els, vs0)
+			if len(vs0) == 0 {
+				// no return and no tracked assignment inside: no effect on the kernel's result
+				return t.block(rest, tail, ind)
+			}
+		}
+		var c string
+		if x.Init != nil {
+			if r, ok := t.sp.InitCond[src(x.Init)+" ; "+src(x.Cond)]; ok {
+				c = r
+			} else if as, ok := x.Init.(*ast.AssignStmt); ok && as.Tok == token.DEFINE && len(as.Lhs) == 1 && len(as.Rhs) == 1 {
+				// `if v := e; cond`: bind v, then the ordinary translation
+				pre := "let " + t.lvalue(as.Lhs[0]) + " := " + t.expr(as.Rhs[0]) + "\n" + ind
+				y := *x
+				y.Init = nil
+				return pre + t.block(append([]ast.Stmt{&y}, rest...), tail, ind)
+			} else {
+				failf(s, "if with init statement unsupported: %s ; %s", src(x.Init), src(x.Cond))
+			}
+		} else if src(x.Cond) == "err != nil" && t.pendingErr != "" {
+			c = t.pendingErr
+			t.pendingErr = ""
+		} else {
+			c = t.expr(x.Cond)
+		}
 		if hasReturn(x.Body.List) || hasReturn(els) {
 			// continuation-duplicating form
 			thenPart := t.block(append(append([]ast.Stmt{}, x.Body.List...), rest...), tail, ind+"  ")
